@@ -51,96 +51,6 @@ theorem DecS_of_ok {buf : List Nat} {ft op sz : Nat} {d : C03S.DInst}
     exact ⟨i, hi, h.1.1.1, h.1.1.2, h.1.2, h.2⟩
   · cases h
 
-/-! SOP2: the decoder looks for "64" in the mnemonic (`String.splitOn`, which the kernel cannot
-    evaluate); that only changes register counts, which `toDInst` does not read. -/
-
-theorem dec_t1 (buf : List Nat) (hlen : buf.length = 8) :
-    C04.decode false buf = C04.decodeCore C04.lookUp false (C04.le32 buf 0) (some (C04.le32 buf 4)) := by
-  have hl : C04.lookUpArch false = C04.lookUp := by
-    funext ft op; simp [C04.lookUpArch]
-  unfold C04.decode C04.decodeWith
-  rw [if_neg (by omega), if_pos (by omega), hl]
-
-theorem dec_t2 (w0 : Nat) (w1 : Option Nat) (f : Gen.Format) (row : Gen.Row)
-    (hf : C04.matchFormat w0 = some f)
-    (hr : C04.lookUp f.ft (C04.extractBits w0 f.opLo f.opHi) = some row) :
-    C04.decodeCore C04.lookUp false w0 w1 = C04.decodeRow false f row w0 w1 := by
-  unfold C04.decodeCore
-  rw [hf]
-  simp only
-  rw [hr]
-
-theorem dec_t3 (w0 w1 : Nat) (f : Gen.Format) (row : Gen.Row) (hft : f.ft = 0) (hsz : f.size = 4) :
-    C04.decodeRow false f row w0 (some w1) =
-      match C04.decodeSOP2 { name := row.name, ft := 0, opcode := row.opcode } w0 with
-      | .done i => .ok { i with size := 4 }
-      | .err => .err
-      | .more k => (k w1).setSize 8 := by
-  unfold C04.decodeRow
-  rw [hsz, hft]
-  simp only [show ((4 : Nat) == 8) = false from rfl, Bool.false_eq_true, if_false]
-  unfold C04.dec4
-  simp only [show ((0 : Nat) == Gen.FT_SOP2) = true from rfl, if_true]
-  generalize C04.decodeSOP2 _ _ = r
-  cases r <;> rfl
-
-theorem opndCode_setCount (o : C04.Opnd) (n : Nat) : opndCode (some (o.setCount n)) = opndCode (some o) := by
-  cases o <;> rfl
-theorem opndLit_setCount (o : C04.Opnd) (n : Nat) : opndLit (some (o.setCount n)) = opndLit (some o) := by
-  cases o <;> rfl
-theorem opndCode_setLit (o : C04.Opnd) (v : Nat) : opndCode (some (C04.setLit o v)) = opndCode (some o) := by
-  cases o <;> rfl
-theorem setCount_setLit (o : C04.Opnd) (n v : Nat) : (C04.setLit o v).setCount n = C04.setLit (o.setCount n) v := by
-  cases o <;> rfl
-theorem opndCode_ite (c : Bool) (o : C04.Opnd) (n : Nat) :
-    opndCode (some (if c = true then o.setCount n else o)) = opndCode (some o) := by
-  cases c <;> simp [opndCode_setCount]
-theorem opndLit_ite (c : Bool) (o : C04.Opnd) (n : Nat) :
-    opndLit (some (if c = true then o.setCount n else o)) = opndLit (some o) := by
-  cases c <;> simp [opndLit_setCount]
-
-theorem sop2_dinst (nm : String) (op w w1 : Nat) (s0 s1 d : C04.Opnd)
-    (h0 : C04.getOperand (C04.extractBits w 0 7) = some s0)
-    (h1 : C04.getOperand (C04.extractBits w 8 15) = some s1)
-    (hd : C04.getOperand (C04.extractBits w 16 22) = some d) :
-    ∃ i, (match C04.decodeSOP2 { name := nm, ft := 0, opcode := op } w with
-          | .done i => C04.Outcome.ok { i with size := 4 }
-          | .err => .err
-          | .more k => (k w1).setSize 8) = .ok i ∧ i.ft = 0 ∧ i.opcode = op ∧
-      i.size = (if (s0.isLit || s1.isLit) = true then 8 else 4) ∧
-      toDInst i = ⟨0, op, opndCode (some d), opndCode (some s0), opndCode (some s1), 0,
-        if (s0.isLit || s1.isLit) = true then
-          (opndLit (some (C04.setLit s0 w1))).getD ((opndLit (some (C04.setLit s1 w1))).getD 0)
-        else (opndLit (some s0)).getD ((opndLit (some s1)).getD 0)⟩ := by
-  unfold C04.decodeSOP2
-  rw [h0, h1, hd]
-  simp only
-  generalize C04.containsSub nm "64" = wide
-  cases hl : (s0.isLit || s1.isLit)
-  · simp only [Bool.false_eq_true, if_false]
-    refine ⟨_, rfl, rfl, rfl, rfl, ?_⟩
-    simp only [toDInst, opndCode_ite, opndLit_ite]
-  · simp only [if_true]
-    refine ⟨_, rfl, rfl, rfl, rfl, ?_⟩
-    simp only [toDInst, C04.Outcome.setSize, opndCode_ite, opndLit_ite, opndCode_setLit]
-
-/-- a SOP2 instruction from table look-ups that the kernel evaluates (`decide +kernel`) -/
-theorem DecS_sop2 (buf : List Nat) (f : Gen.Format) (row : Gen.Row) (s0 s1 d : C04.Opnd)
-    (hlen : buf.length = 8)
-    (hf : C04.matchFormat (C04.le32 buf 0) = some f) (hft : f.ft = 0) (hsz : f.size = 4)
-    (hr : C04.lookUp f.ft (C04.extractBits (C04.le32 buf 0) f.opLo f.opHi) = some row)
-    (h0 : C04.getOperand (C04.extractBits (C04.le32 buf 0) 0 7) = some s0)
-    (h1 : C04.getOperand (C04.extractBits (C04.le32 buf 0) 8 15) = some s1)
-    (hd : C04.getOperand (C04.extractBits (C04.le32 buf 0) 16 22) = some d) :
-    DecS buf 0 row.opcode (if (s0.isLit || s1.isLit) = true then 8 else 4)
-      ⟨0, row.opcode, opndCode (some d), opndCode (some s0), opndCode (some s1), 0,
-        if (s0.isLit || s1.isLit) = true then
-          (opndLit (some (C04.setLit s0 (C04.le32 buf 4)))).getD ((opndLit (some (C04.setLit s1 (C04.le32 buf 4)))).getD 0)
-        else (opndLit (some s0)).getD ((opndLit (some s1)).getD 0)⟩ := by
-  unfold DecS
-  rw [dec_t1 buf hlen, dec_t2 _ _ f row hf hr, dec_t3 _ _ f row hft hsz]
-  exact sop2_dinst row.name row.opcode _ _ s0 s1 d h0 h1 hd
-
 /-! ## the scalar machine seen through `toM` / `ofM` -/
 
 theorem toM_sreg (st : St) (n : Nat) : (toM st).sreg n = st.rs n := by
